@@ -135,7 +135,12 @@ class SteadyDetonationReactionZone(ExactSolver):
                 ((1.0 - 1.0/self.gamma)*t + t**2 /
                         (2.0 * self.gamma))
             else:
-                xvec_rel[i] = xvec_rel[it1] + (self.D - uvec[it1]) * (t-1.0)
+                # relative position at the end of the reaction (t = 1); the time
+                # grid need not contain t = 1 exactly, so do not read xvec_rel[it1]
+                xrel_1 = self.rho_0 * self.Dj / self.rhoj *\
+                ((1.0 - 1.0/self.gamma)*1.0 + 1.0**2 /
+                        (2.0 * self.gamma))
+                xvec_rel[i] = xrel_1 + (self.D - uvec[it1]) * (t-1.0)
 
         xvec_abs = self.D * tvec[-1] - xvec_rel   # Particle position in absolute coordinates
 
